@@ -15,7 +15,7 @@ Definition cpath (sep pp name : string) : string :=
   else if String.eqb pp "" then name else pp +++ sep +++ name.
 
 (** FlattenedKeys: the paths (from stored names) of the values that are not configs; a node
-    with named keys is walked through its dictionary only, otherwise through its list. *)
+    is walked through its dictionary and through its list. *)
 Fixpoint flat_keys (sep pp : string) (v : value) {struct v} : res (list string) :=
   match v with
   | VSub d a =>
@@ -32,24 +32,21 @@ Fixpoint flat_keys (sep pp : string) (v : value) {struct v} : res (list string) 
                      rest <- go r ;;
                      Ok (here ++ rest)
                    end) in
-    match d, a with
-    | _ :: _, _ =>
-      (fix god (l : list (string * (string * value))) : res (list string) :=
-         match l with
-         | [] => Ok []
-         | (_, (nm, x)) :: r =>
-           here <- match x with
-                   | VSub _ _ => flat_keys sep (cpath sep pp nm) x
-                   | VNil => Ok []
-                   | VRef _ _ | VSplice _ => OutOfModel
-                   | _ => Ok [cpath sep pp nm]
-                   end ;;
-           rest <- god r ;;
-           Ok (here ++ rest)
-         end) d
-    | [], Some l => walk l
-    | [], None => Ok []
-    end
+    dk <- (fix god (l : list (string * (string * value))) : res (list string) :=
+             match l with
+             | [] => Ok []
+             | (_, (nm, x)) :: r =>
+               here <- match x with
+                       | VSub _ _ => flat_keys sep (cpath sep pp nm) x
+                       | VNil => Ok []
+                       | VRef _ _ | VSplice _ => OutOfModel
+                       | _ => Ok [cpath sep pp nm]
+                       end ;;
+               rest <- god r ;;
+               Ok (here ++ rest)
+             end) d ;;
+    ak <- match a with Some l => walk l | None => Ok [] end ;;
+    Ok (dk ++ ak)
   | _ => Ok []
   end.
 
